@@ -3,4 +3,4 @@ From SF Require Import Base.GeomAST Model.Hull Model.Calipers.
 Extraction Language OCaml.
 Extraction "model.ml" convex_hull hull_geom_ok point_set hull_pts hull_ok result_geom result_of_geom
   sort pt_eqb is_empty mbr_pts candidates cand_rect rect_corners cand_metric rect_out_ok rect_contains
-  q_of_pt N.of_nat N.to_nat Z.of_nat Qred.
+  q_of_pt geom_vs xy_of float_hull_ok float_rect_ok walk_candidates N.of_nat N.to_nat Z.of_nat Qred.
